@@ -261,32 +261,55 @@ ENVX_NOTE = ("Real rtr_fsm_start thread (created by the real rtr_start), real rt
              "fields, canonical dumps of both tables, transport state, cache model, monitor state, normalised clock.")
 
 
+_EJ_TIER = ["quick"]
+
+
 def _ej(prop, depth, refresh=3, retry=2, expire=600, cache_ver=1, extra=()):
     args = ["--prop=" + prop, "--max-depth=%d" % depth, "--refresh=%d" % refresh, "--retry=%d" % retry,
             "--expire=%d" % expire, "--cache-ver=%d" % cache_ver] + list(extra)
+    if _EJ_TIER[0] == "thorough":
+        args.append("--max-states=2000000")  # default 200000; the deadline bounds the thorough tier
     return Job("envx", ENVX_BUILD, args, "conversations depth<=%d iv=%d/%d/%d cache-v%d %s"
                % (depth, refresh, retry, expire, cache_ver, " ".join(extra)))
 
 
 def c05_jobs(tier, repo):
+    _EJ_TIER[0] = tier
     d = 9 if tier == "quick" else 13
-    return [_ej("C05", d, 3, 2, 600, 1), _ej("C05", d, 1, 1, 600, 1), _ej("C05", d, 3, 2, 600, 0),
+    jobs = [_ej("C05", d, 3, 2, 600, 1), _ej("C05", d, 1, 1, 600, 1), _ej("C05", d, 3, 2, 600, 0),
             _ej("C05", d + 2, 3, 2, 8, 1), _ej("C05", d + 2, 2, 1, 5, 0)]
+    if tier == "thorough":  # more interval settings, more publications / stop requests per conversation
+        jobs += [_ej("C05", d, 2, 3, 600, 1), _ej("C05", d, 5, 1, 600, 1), _ej("C05", d, 1, 1, 600, 0),
+                 _ej("C05", d, 3, 2, 600, 1, ["--max-publish=3"]), _ej("C05", d, 3, 2, 600, 1, ["--max-stops=2"]),
+                 _ej("C05", d + 2, 3, 2, 8, 0), _ej("C05", d + 2, 1, 1, 4, 1)]
+    return jobs
 
 
 def c07_jobs(tier, repo):
-    d = 12 if tier == "quick" else 16
-    return [_ej("C07", d, 1, 1, 600, 1), _ej("C07", d, 3, 2, 600, 1), _ej("C07", d, 700, 1, 600, 1),
+    _EJ_TIER[0] = tier
+    d = 12 if tier == "quick" else 22
+    jobs = [_ej("C07", d, 1, 1, 600, 1), _ej("C07", d, 3, 2, 600, 1), _ej("C07", d, 700, 1, 600, 1),
             _ej("C07", d, 3, 2, 600, 0), _ej("C07", d, 3, 2, 8, 1), _ej("C07", d, 2, 1, 5, 0)]
+    if tier == "thorough":
+        jobs += [_ej("C07", d, 2, 3, 600, 1), _ej("C07", d, 5, 1, 600, 1), _ej("C07", d, 700, 1, 600, 0),
+                 _ej("C07", d, 3, 2, 600, 1, ["--max-publish=3"]), _ej("C07", d, 3, 2, 600, 1, ["--max-stops=2"]),
+                 _ej("C07", d, 1, 1, 4, 1), _ej("C07", d, 3, 2, 8, 0)]
+    return jobs
 
 
 def c08_jobs(tier, repo):
-    d = 8 if tier == "quick" else 10
-    return [_ej("C08", d, 3, 2, 600, 1), _ej("C08", d, 1, 1, 600, 1), _ej("C08", d, 3, 2, 600, 0),
+    _EJ_TIER[0] = tier
+    d = 8 if tier == "quick" else 12
+    jobs = [_ej("C08", d, 3, 2, 600, 1), _ej("C08", d, 1, 1, 600, 1), _ej("C08", d, 3, 2, 600, 0),
             _ej("C08", d, 3, 2, 8, 1)]
+    if tier == "thorough":
+        jobs += [_ej("C08", d, 2, 3, 600, 1), _ej("C08", d, 5, 1, 600, 1), _ej("C08", d, 1, 1, 600, 0),
+                 _ej("C08", d, 3, 2, 600, 1, ["--max-publish=3"]), _ej("C08", d, 3, 2, 8, 0), _ej("C08", d, 1, 1, 4, 1)]
+    return jobs
 
 
 def c13_jobs(tier, repo):
+    _EJ_TIER[0] = tier
     # the first two configurations reach their fixed point (3320 / 912 states) below depth 64; the third
     # (refresh = retry = 1: the clock takes many more values) is explored to a depth
     d = 30 if tier == "quick" else 90
@@ -394,6 +417,7 @@ C17_BUILD = dict(flavour="asan", name="c17_intervals", harness_srcs=["c17_interv
 
 
 def c17_jobs(tier, repo):
+    _EJ_TIER[0] = tier
     jobs = [Job("c17_intervals", C17_BUILD, ["--mode=eod"], "End of Data boundary triples x modes"),
             Job("c17_intervals", C17_BUILD, ["--mode=init"], "rtr_init / rtr_mgr_init boundary triples")]
     d = 64 if tier == "quick" else 200  # the polling conversations close at about a hundred states
@@ -618,20 +642,23 @@ C15_BUILD = dict(flavour="asan", name="c15_mgr", harness_srcs=["c15_mgr.c"],
 def c15_jobs(tier, repo):
     q = tier == "quick"
     # preferences are multiples of 10 so that the spare group 15 lands between two groups and spare 0 in front
-    cfgs = [("1", "10", 10 if q else 14, ["--malformed", "--dyn=3"]),
-            ("2", "20", 8 if q else 10, ["--dyn=3"]),
-            ("1,1", "10,20", 9 if q else 12, ["--dyn=3"]),
-            ("1,1", "20,10", 9 if q else 12, ["--spare-dup"]),
-            ("1,1", "0,255", 8 if q else 11, []),
-            ("2,1", "10,20", 7 if q else 9, []),
-            ("2,1", "20,10", 7 if q else 9, []),
-            ("1,2", "10,20", 7 if q else 9, ["--spare-dup"]),
-            ("1,1,1", "10,20,30", 6 if q else 8, []),
-            ("1,1,1", "30,10,20", 6 if q else 8, ["--spare-dup"]),
-            ("1,1,1", "20,30,10", 6 if q else 8, []),
-            ("2,1,1", "20,30,10", 5 if q else 7, []),
-            ("1,2,2", "30,20,10", 5 if q else 7, [])]
-    jobs = [Job("c15_mgr", C15_BUILD, ["--groups=" + g, "--prefs=" + p, "--max-depth=%d" % d] + x,
+    # thorough: the one-group configuration reaches its fixed point (23160 states); the others run to the state cap
+    # or the deadline
+    cfgs = [("1", "10", 10 if q else 60, ["--malformed", "--dyn=3"]),
+            ("2", "20", 8 if q else 16, ["--dyn=3"]),
+            ("1,1", "10,20", 9 if q else 18, ["--dyn=3"]),
+            ("1,1", "20,10", 9 if q else 18, ["--spare-dup"]),
+            ("1,1", "0,255", 8 if q else 18, []),
+            ("2,1", "10,20", 7 if q else 14, []),
+            ("2,1", "20,10", 7 if q else 14, []),
+            ("1,2", "10,20", 7 if q else 14, ["--spare-dup"]),
+            ("1,1,1", "10,20,30", 6 if q else 12, []),
+            ("1,1,1", "30,10,20", 6 if q else 12, ["--spare-dup"]),
+            ("1,1,1", "20,30,10", 6 if q else 12, []),
+            ("2,1,1", "20,30,10", 5 if q else 10, []),
+            ("1,2,2", "30,20,10", 5 if q else 10, [])]
+    jobs = [Job("c15_mgr", C15_BUILD, ["--groups=" + g, "--prefs=" + p, "--max-depth=%d" % d]
+                + ([] if q else ["--max-states=3000000"]) + x,
                 "groups[%s] prefs[%s] depth<=%d %s" % (g, p, d, " ".join(x))) for g, p, d, x in cfgs]
     # conformance of the socket-lifecycle relation with the real FSM
     jobs.append(Job("envx", ENVX_BUILD, ["--prop=C15R", "--max-depth=%d" % (7 if q else 9)],
@@ -873,6 +900,7 @@ C18_BUILD = dict(flavour="asan", name="c18_alloc", harness_srcs=["c18_alloc.c"],
 
 
 def c18_jobs(tier, repo):
+    _EJ_TIER[0] = tier
     jobs = [Job("c18_alloc", C18_BUILD, ["--mode=fault"], "k-th allocation fails, every k, tables + synchronisation")]
     depth, n = (3, 4) if tier == "quick" else (4, 16)
     for i in range(n):
